@@ -2,7 +2,9 @@ package props
 
 import (
 	"fmt"
+	"go/token"
 	"go/types"
+	"strconv"
 	"strings"
 
 	"golang.org/x/tools/go/ssa"
@@ -132,6 +134,7 @@ func runC04(c *Ctx) {
 	}
 	c.R.OK(r1, "router-side packages", fmt.Sprintf("enumerated %d single-result assertions and %d list index sites", nAssert, nIndex), "-", "")
 	c.R.Check(nIndex >= 20, r1, "router-side packages", "list index sites enumerated", "-", fmt.Sprintf("only %d message-list index sites found; 20 were confirmed by reading", nIndex))
+	ruleWireIndexBounded(c, r1)
 	ruleListToMsgBounded(c, r1) // a frame with surplus elements must not panic the transport's receive goroutine
 	c.R.Floor(r1, 26)
 
@@ -336,4 +339,98 @@ func ruleNoNilMessage(c *Ctx, r2 string) {
 		// a successful Deserialize is the only source
 		c.Has(r2, fname, "message comes from Deserialize", `^call:invoke:serialize\.Serializer\.Deserialize\[`, 1)
 	}
+}
+
+// ruleWireIndexBounded: an index into a fixed-size array that is computed from a byte of a locally filled buffer (a
+// handshake or frame header just read from the connection) and is not a compile-time constant is provably inside the
+// array: masked or shifted below its size, or dominated by a comparison with a constant that bounds it. Indices that
+// come from parameters or fields are not decided here (their range is the caller's business) and are skipped.
+func ruleWireIndexBounded(c *Ctx, rule string) {
+	n := 0
+	for _, fn := range c.P.NexusFuncs {
+		name := ir.ShortName(fn)
+		if !inPkgs(name, routerSidePkgs) && !inPkgs(name, []string{"client"}) {
+			continue
+		}
+		for _, in := range ir.Instrs(fn) {
+			var x, idx ssa.Value
+			switch v := in.(type) {
+			case *ssa.IndexAddr:
+				x, idx = v.X, v.Index
+			case *ssa.Index:
+				x, idx = v.X, v.Index
+			default:
+				continue
+			}
+			t := x.Type().Underlying()
+			if p, ok := t.(*types.Pointer); ok {
+				t = p.Elem().Underlying()
+			}
+			arr, ok := t.(*types.Array)
+			if !ok || arr.Len() > 512 {
+				continue
+			}
+			if _, isConst := idx.(*ssa.Const); isConst {
+				continue
+			}
+			v := idx
+			for {
+				if cv, ok := v.(*ssa.Convert); ok {
+					v = cv.X
+					continue
+				}
+				break
+			}
+			d := ir.Desc(v)
+			if !strings.Contains(d, "&local:") {
+				continue
+			}
+			n++
+			c.R.Check(wireIndexBounded(fn, in, idx, v, arr.Len()), rule, name, "array index "+ir.Desc(x)+"["+d+"] within its "+fmt.Sprint(arr.Len())+" elements", c.pos(in),
+				"index "+d+" (a byte read from the connection) into an array of "+fmt.Sprint(arr.Len())+" elements is neither masked/shifted below that size nor dominated by a comparison with a constant that bounds it: a value outside the table panics the connection's goroutine, which has no recover, and with it the router")
+		}
+	}
+	c.R.OK(rule, "router-side packages and client", fmt.Sprintf("enumerated %d array index sites computed from a locally read buffer", n), "-", "")
+}
+
+func wireIndexBounded(fn *ssa.Function, at ssa.Instruction, idx, v ssa.Value, n int64) bool {
+	konst := func(x ssa.Value) (int64, bool) {
+		if k, ok := x.(*ssa.Const); ok && k.Value != nil {
+			if i, err := strconv.ParseInt(ir.ConstStr(k), 10, 64); err == nil {
+				return i, true
+			}
+		}
+		return 0, false
+	}
+	if b, ok := v.(*ssa.BinOp); ok {
+		switch b.Op {
+		case token.AND:
+			for _, o := range []ssa.Value{b.X, b.Y} {
+				if k, ok := konst(o); ok && k >= 0 && k < n {
+					return true
+				}
+			}
+		case token.SHR:
+			if s, ok := konst(b.Y); ok {
+				if bt, ok := b.X.Type().Underlying().(*types.Basic); ok && bt.Kind() == types.Uint8 && (255>>uint(s)) < n {
+					return true
+				}
+			}
+		}
+	}
+	var le, lt []string
+	for i := int64(0); i <= n; i++ {
+		lt = append(lt, fmt.Sprint(i))
+		if i < n {
+			le = append(le, fmt.Sprint(i))
+		}
+	}
+	for _, d := range []string{ir.Desc(idx), ir.Desc(v)} {
+		e := `(conv:\w+\()?` + q(d) + `\)?`
+		cl := clause("index bounded by a constant", T(`^\(`+e+` < (`+strings.Join(lt, "|")+`)\)$`), F(`^\((`+strings.Join(le, "|")+`) < `+e+`\)$`))
+		if g, _ := ir.GuardedBy(fn, at, cl); g {
+			return true
+		}
+	}
+	return false
 }
